@@ -28,7 +28,7 @@ type c08ChainCons struct {
 	lib   uint64
 	calls []int64
 	idOf  map[string]int
-	last  int64 // id of the block of the last Update: "the status" of this stub
+	last  int64          // id of the block of the last Update: "the status" of this stub
 	ref   map[int64]bool // ids of the blocks IsBlockValid refuses
 }
 
